@@ -39,6 +39,9 @@ var (
 	// ErrUnsupportedStatusStrategy occurs when an invalid StatusStrategy is used
 	// when processing the Worktree status.
 	ErrUnsupportedStatusStrategy = errors.New("unsupported status strategy")
+
+	// errIsDirectory is what copyFileToStorage answers for a directory.
+	errIsDirectory = errors.New("is a directory")
 )
 
 // Status returns the working tree status.
@@ -412,7 +415,8 @@ func (w *Worktree) doAddDirectory(cfg *config.Config, idx *index.Index, s Status
 	directory = filepath.ToSlash(filepath.Clean(directory))
 
 	for name := range s {
-		if !isPathInDirectory(name, directory) {
+		// directory itself is in s when the index has a file of that name
+		if name != directory && !isPathInDirectory(name, directory) {
 			continue
 		}
 
@@ -606,9 +610,18 @@ func (w *Worktree) doAddFile(cfg *config.Config, idx *index.Index, s Status, pat
 
 	h, err = w.copyFileToStorage(cfg, path)
 	if err != nil {
-		if os.IsNotExist(err) {
+		switch {
+		case os.IsNotExist(err):
 			added = true
 			h, err = w.deleteFromIndex(idx, path)
+		case errors.Is(err, errIsDirectory):
+			// A directory stands where the file was, so the file is gone. Its
+			// entry may be gone already too: a file staged below the
+			// directory has displaced it.
+			added = true
+			if _, err = w.deleteFromIndex(idx, path); errors.Is(err, index.ErrEntryNotFound) {
+				err = nil
+			}
 		}
 
 		return added, h, err
@@ -625,6 +638,9 @@ func (w *Worktree) copyFileToStorage(cfg *config.Config, path string) (hash plum
 	fi, err := w.filesystem.Lstat(path)
 	if err != nil {
 		return plumbing.ZeroHash, err
+	}
+	if fi.IsDir() {
+		return plumbing.ZeroHash, fmt.Errorf("%s: %w", path, errIsDirectory)
 	}
 
 	obj := w.r.Storer.NewEncodedObject()
@@ -705,11 +721,27 @@ func (w *Worktree) addOrUpdateFileToIndex(idx *index.Index, filename string, h p
 }
 
 func (w *Worktree) doAddFileToIndex(idx *index.Index, filename string, h plumbing.Hash) error {
+	dropFileDirectoryConflicts(idx, filename)
 	e, err := idx.Add(filename)
 	if err != nil {
 		return err
 	}
 	return w.doUpdateFileToIndex(e, filename, h)
+}
+
+// dropFileDirectoryConflicts removes from idx the entries that cannot stand
+// next to a file called name: a file at one of its leading directories, and
+// whatever is below name itself. The path being staged wins, as with git add
+// and git mv; keeping both would describe a tree that cannot be checked out.
+func dropFileDirectoryConflicts(idx *index.Index, name string) {
+	name = filepath.ToSlash(name)
+	kept := idx.Entries[:0]
+	for _, e := range idx.Entries {
+		if !strings.HasPrefix(e.Name, name+"/") && !strings.HasPrefix(name, e.Name+"/") {
+			kept = append(kept, e)
+		}
+	}
+	idx.Entries = kept
 }
 
 func (w *Worktree) doUpdateFileToIndex(e *index.Entry, filename string, h plumbing.Hash) error {
@@ -875,6 +907,7 @@ func (w *Worktree) Move(from, to string) (plumbing.Hash, error) {
 	// stale content.
 	dst, err := idx.Entry(to)
 	if errors.Is(err, index.ErrEntryNotFound) {
+		dropFileDirectoryConflicts(idx, to)
 		dst, err = idx.Add(to)
 	}
 	if err != nil {
